@@ -48,6 +48,7 @@ def run():
     c.extra["distinct_nontrivial"] = c.extra["cases"]
     c.rule = ("R1: Sauce.tla with RecLen=8, CmtLen=2, one-byte ids: TLC builds every byte string over {x,EOF,C,S} up to length 10 (quick) / 12 (thorough); Split is total and sane on each, "
               "and for every such string of length <= 6 taken as content, every list of 0..2 comment lines and several records Split(Join(..)) returns exactly content, comments, record; "
+              "(seeded cases: one comment line in eight is a full 64-byte line that begins / ends with COMNT / SAUCE00 / SAUCE) "
               "field law Strip(Read(Pad(t))) = Strip(t) for all texts up to length 4. R2: TLC enumerates the case slices (field lengths 0/1/max-1/max x trailing none/blank/NUL; comment counts "
               "0,1,2,254,255 x line lengths; ice x letter-spacing x aspect-ratio x widths {1,79,80,81,160,255,256,1000} x content tails plain/SAUCE00/COMNT/EOF) x the ten writers; the driver "
               "adds seeded random metadata. R3: each case is saved with SAUCE by Buffer::to_bytes and reloaded by Buffer::from_bytes; Trace_Sauce checks, per field the writer's SAUCE variant "
